@@ -14,15 +14,20 @@ CONSTANT Fixed
 
 Attrs == {"givenName", "mail", "title"}
 Vals  == {"v1", "v2"}
-AnyVal   == Vals \cup {"v9"}                      \* "no value constraint"
+\* "V2": the value v2 written in capitals -- another value (values are data: compared as they are)
+IdVals == Vals \cup {"V2"}
+AnyVal   == IdVals \cup {"v9"}                    \* "no value constraint"
 \* research & scholarship releases these of ours (entity_category/refeds.py)
 \* the swamid release table keys most of its bundles by a *pair* of categories (research-and-education together with
 \* eu-adequate-protection / nren-service / hei-service): a provider in only one of the two is entitled to nothing by it
 Entitled(hasCat) == IF hasCat THEN {"givenName", "mail"} ELSE {}
+\* the GEANT code of conduct (entity_category/edugain.py) releases on request only: of ours mail, and only to a provider
+\* in the category that lists it as *required* -- what it merely marks optional is not released by it
+EntitledCoco(sw, required) == IF sw = "coco" THEN {"mail"} \cap required ELSE {}
 EntitledSwamid(hasCat, sw) == (IF hasCat THEN {"givenName", "mail"} ELSE {}) \cup (IF sw = "re_eu" THEN {"givenName", "mail"} ELSE {})
 
 \* a1v1twice: the same value set as a1v1only, configured as two overlapping patterns that both match v1
-Policies == {"none", "names12", "a1v1only", "a1v1twice", "perSP_a1", "perSP_fallback_a2", "ec", "ec_names1", "ec_swamid"}
+Policies == {"none", "names12", "a1v1only", "a1v1twice", "perSP_a1", "perSP_fallback_a2", "ec", "ec_names1", "ec_swamid", "ec_coco"}
 \* attribute restrictions that apply to this SP: "none" or [attr -> allowed values] on the listed attributes
 RestrOf(p) == CASE p = "names12" -> [a \in {"givenName", "mail"} |-> AnyVal]
                 [] p \in {"a1v1only", "a1v1twice"} -> [a \in {"givenName", "mail"} |-> IF a = "givenName" THEN {"v1"} ELSE AnyVal]
@@ -30,20 +35,22 @@ RestrOf(p) == CASE p = "names12" -> [a \in {"givenName", "mail"} |-> AnyVal]
                 [] p = "perSP_fallback_a2" -> [a \in {"mail"} |-> AnyVal]
                 [] p = "ec_names1" -> [a \in {"givenName"} |-> AnyVal]
                 [] OTHER -> <<>>                \* no restriction
-HasRestr(p) == p \notin {"none", "ec", "ec_swamid"}
-EcInForce(p) == p \in {"ec", "ec_names1", "ec_swamid"}
+HasRestr(p) == p \notin {"none", "ec", "ec_swamid", "ec_coco"}
+EcInForce(p) == p \in {"ec", "ec_names1", "ec_swamid", "ec_coco"}
 
-Decls == {"none", "req_a1", "req_a1_v2", "req_a3_opt_a2", "opt_a2", "req_a1_v9"}
+Decls == {"none", "req_a1", "req_a1_v2", "req_a3_opt_a2", "opt_a2", "req_a1_v9", "req_a2"}
 Req(d) == CASE d = "req_a1" -> [a \in {"givenName"} |-> AnyVal]
             [] d = "req_a1_v2" -> [a \in {"givenName"} |-> {"v2"}]
             [] d = "req_a3_opt_a2" -> [a \in {"title"} |-> AnyVal]
             [] d = "req_a1_v9" -> [a \in {"givenName"} |-> {"v9"}]
+            [] d = "req_a2" -> [a \in {"mail"} |-> AnyVal]
             [] OTHER -> <<>>
 Opt(d) == CASE d = "req_a3_opt_a2" -> [a \in {"mail"} |-> AnyVal]
             [] d = "opt_a2" -> [a \in {"mail"} |-> AnyVal]
             [] OTHER -> <<>>
 
-Identities == {i \in [Attrs -> SUBSET Vals] : i["mail"] \in {{}, {"v1"}} /\ i["title"] \in {{}, {"v1"}} /\ i["givenName"] # {"v2"}}
+Identities == {i \in [Attrs -> SUBSET IdVals] : /\ i["mail"] \in {{}, {"v1"}} /\ i["title"] \in {{}, {"v1"}}
+                                                 /\ i["givenName"] \in {{}, {"v1"}, {"v1", "v2"}, {"V2"}, {"v1", "V2"}}}
 \* the server is long-lived and serves many providers with one compiled policy: prev is the provider it served just before
 \* (with the full identity), if any.  What it releases now is a function of the present request alone.
 Prev == {[served |-> FALSE, decl |-> "none", hasCat |-> FALSE]} \cup [served : {TRUE}, decl : Decls, hasCat : BOOLEAN]
@@ -53,11 +60,14 @@ Scn == [ident : Identities, upper : BOOLEAN, policy : Policies, decl : Decls, ha
         typed : BOOLEAN,
         \* swamid categories the provider declares besides; "rs_support": it declares research-and-scholarship under
         \* entity-category-*support* (what an IdP says about itself), which entitles to nothing
-        swamidCat : {"none", "re_only", "re_eu", "rs_support"}]
+        swamidCat : {"none", "re_only", "re_eu", "rs_support", "coco"}]
 WellFormed(s) == /\ s.typed => ~s.prev.served /\ ~s.upper
                  /\ s.swamidCat \in {"re_only", "re_eu"} => s.policy = "ec_swamid" /\ ~s.prev.served /\ ~s.typed /\ ~s.upper
                  /\ s.swamidCat = "rs_support" => s.policy \in {"ec", "ec_swamid", "ec_names1"} /\ ~s.prev.served /\ ~s.typed /\ ~s.upper /\ ~s.hasCat
                  /\ s.policy = "ec_swamid" => ~s.prev.served /\ ~s.typed
+                 /\ s.swamidCat = "coco" => s.policy = "ec_coco" /\ ~s.hasCat
+                 /\ s.policy = "ec_coco" => ~s.prev.served /\ ~s.typed /\ ~s.upper /\ s.swamidCat \in {"none", "coco"}
+                 /\ s.decl = "req_a2" => s.policy \in {"none", "ec_coco"} /\ ~s.prev.served /\ ~s.typed
 
 VARIABLES scn, pc, ava, outcome
 vars == <<scn, pc, ava, outcome>>
@@ -76,7 +86,9 @@ Missing(f, d) == \E a \in DOMAIN Req(d) :
                     \/ (f[a] = {} /\ scn.failOnMissing)
                     \/ (f[a] # {} /\ f[a] \cap Req(d)[a] = {})
 
-Ent == IF scn.policy = "ec_swamid" THEN EntitledSwamid(scn.hasCat, scn.swamidCat) ELSE Entitled(scn.hasCat)
+Ent == CASE scn.policy = "ec_swamid" -> EntitledSwamid(scn.hasCat, scn.swamidCat)
+         [] scn.policy = "ec_coco" -> EntitledCoco(scn.swamidCat, DOMAIN Req(scn.decl))
+         [] OTHER -> Entitled(scn.hasCat)
 \* Policy.filter.  lenient = requirements treated as wishes (no MissingValue)
 Filter(f, lenient) ==
     LET s1 == IF EcInForce(scn.policy) THEN Keep(f, Ent)
